@@ -623,7 +623,10 @@ def cmd_diff(args):
     import random
 
     props = set(args["props"])
+    from xdis.bytecode import Bytecode
+
     acc = Acc()
+    shared_bc = {}
     rng = random.Random(args.get("seed", 0))
     max_code = args.get("max_code", 1 << 30)
     need_inst = bool(props & {"C02", "C03", "C04", "C05"})
@@ -725,6 +728,19 @@ def cmd_diff(args):
                         cmp_c02_code(acc, V, src, fileid, crec, xco, opc, header, insts)
                     if "C03" in props:
                         cmp_c03_code(acc, V, src, fileid, crec, xco, opc, insts)
+                        # second entry point: ONE Bytecode object per file (built from the module's code), asked for the
+                        # instructions of each nested code object - must resolve operands against the object it is given
+                        if path != walked[0][0] and crec["ncode"] <= 1500:
+                            try:
+                                if shared_bc.get(fileid) is None:
+                                    shared_bc.clear()
+                                    shared_bc[fileid] = Bytecode(walked[0][1], opc, dup_lines=False)
+                                insts2 = list(shared_bc[fileid].get_instructions(xco))
+                                acc.count("c03_shared_Bytecode_get_instructions")
+                                cmp_c03_code(acc, V, src + "+shared-Bytecode.get_instructions", fileid, crec, xco, opc, insts2)
+                            except Exception as e:
+                                acc.mismatch("C03|%s|shared-Bytecode.get_instructions-raises:%s" % (src, type(e).__name__), v=vs(V),
+                                             file=fileid, path=path, msg=str(e)[:200])
                     if "C04" in props:
                         cmp_c04_code(acc, V, src, fileid, crec, xco, opc, insts)
                     if "C05" in props:
@@ -2914,6 +2930,14 @@ def run_op(op):
             elif kind == "bytecode":
                 (version, ts, magic_int, co, is_pypy, size, sip) = load_module(op["file"])
                 res = stream_render(co, get_opcode(version, is_pypy), tuple(version[:2]))
+            elif kind == "marsh_loads_py2":
+                # xdis.marsh.loads on the marshal payload of a real Python 2 file (interned 't' strings and 'R' references)
+                import xdis.marsh as xm
+
+                with open(op["file"], "rb") as f:
+                    data = f.read()
+                co = xm.loads(data[8:])
+                res = tree_render(co, (2, 7))
             elif kind == "marsh":
                 import xdis.marsh as xm
                 from vf.gen import values as GV
